@@ -305,6 +305,15 @@ def _moved_types(config, parsed):
             al = sorted(set(x["alias"] for x in rx if x["real"] == r and x["alias"] in kn and x["alias"] not in real_paths))
             if len(al) == 1:
                 out.append((r, al[0]))
+        # free functions likewise
+        knf = set(known.get(cname + "#fns", []))
+        real_fns = set(f["def"] for f in j.get("fns", []) if f.get("dk") == "Fn")
+        for r in sorted(real_fns):
+            if r in knf or not knf:
+                continue
+            al = sorted(set(x["alias"] for x in rx if x["real"] == r and x["alias"] in knf and x["alias"] not in real_fns))
+            if len(al) == 1:
+                out.append((r, al[0]))
     # longest first, so that a moved module prefix never shadows a longer path
     out.sort(key=lambda x: -len(x[0]))
     return out
